@@ -1,6 +1,8 @@
-//! C03 (bounded stand-in, labelled bounded): `Directory::find_entry_for_tile_id` on every directory of up to 3 fully
+//! C03 (bounded cross-check, labelled bounded): `Directory::find_entry_for_tile_id` on every directory of up to 3 fully
 //! symbolic entries: it returns the FIRST entry that is not a leaf pointer and whose run covers the id, and `None`
-//! iff no entry does.  vstd's spec of `Iterator::find` is too weak for the `None` direction, hence Kani with a stated bound.
+//! iff no entry does.  The unbounded proof is the Verus contract of the extracted function (unit `read_directories`), which
+//! replaces `Iterator::find` by a verified first-match loop; this harness runs the REAL `Iterator::find` of std under CBMC and
+//! so checks that replacement (rule R8) on everything up to the bound.
 use pmtiles2::{Directory, Entry};
 
 fn covers(e: &Entry, id: u64) -> bool {
